@@ -63,6 +63,8 @@ def row_cases(tier):
             for op in ("softmax", "log_softmax", "ce"):
                 for form in ("fn", "layer"):
                     out.append({"kind": "rows", "op": op, "L": L, "dtype": dt, "form": form})
+                if op != "ce":
+                    out.append({"kind": "rows", "op": op, "L": L, "dtype": dt, "form": "fn", "axis": 0})      # same rows stored as columns
     return out
 
 def xs_for(case):
@@ -130,16 +132,20 @@ def judge(case):
             i = int(np.argmax((np.where(bad, err / tolr, 0)).max(axis=-1) if bad.ndim > 1 else np.where(bad, err / tolr, 0)))
             v(f"{name}:{what}:inaccurate", f"{int(bad.sum())} entries; worst logits {rows[i].tolist()} ({case['dtype']}): got {np.asarray(got[i]).tolist()}, exact {np.asarray(ref[i]).tolist()}")
     if op in ("softmax", "log_softmax"):
-        mk = (lambda t: getattr(F, op)(t, 1)) if form == "fn" else (lambda t: (sg.nn.Softmax(1) if op == "softmax" else sg.nn.LogSoftmax(1))(t))
-        T = sg.Tensor(rows.copy(), requires_grad=True); y = mk(T)
-        report("forward", y.data, s if op == "softmax" else ls, tol)
+        ax = case.get("axis", 1)
+        lay = (lambda a: np.ascontiguousarray(a.T)) if ax == 0 else (lambda a: a)      # (n, L) rows -> (L, n) columns
+        unlay = (lambda a: np.asarray(a).T) if ax == 0 else (lambda a: np.asarray(a))
+        if ax == 0: name = f"{op}:dim0"
+        mk = (lambda t: getattr(F, op)(t, ax)) if form == "fn" else (lambda t: (sg.nn.Softmax(1) if op == "softmax" else sg.nn.LogSoftmax(1))(t))
+        T = sg.Tensor(lay(rows.copy()), requires_grad=True); y = mk(T)
+        report("forward", unlay(y.data), s if op == "softmax" else ls, tol)
         for j in range(L):
-            T = sg.Tensor(rows.copy(), requires_grad=True); y = mk(T)
+            T = sg.Tensor(lay(rows.copy()), requires_grad=True); y = mk(T)
             g = np.zeros(rows.shape, dtype=dt); g[:, j] = 1
-            y.backward(sg.Tensor(g))
+            y.backward(sg.Tensor(lay(g)))
             if op == "softmax": ref = s * (g - (g * s).sum(axis=1, keepdims=True))
             else: ref = g - s * g.sum(axis=1, keepdims=True)
-            report(f"backward[g=e{j}]", T.grad.data, ref, tol)
+            report(f"backward[g=e{j}]", unlay(T.grad.data), ref, tol)
     else:
         for lab in range(L):
             labels = np.full(len(rows), lab, dtype=np.int64)
